@@ -493,7 +493,7 @@ pub fn run_c16(cfg: &Config) -> i32 {
 	let mut total = Report::new();
 	let seed = cfg.seed;
 	let shards = 64usize;
-	let n = cfg.budget(150_000, 8_000_000);
+	let n = cfg.budget(1_000_000, 20_000_000);
 	let rep = parallel(cfg.threads, shards, |i| {
 		let mut rep = Report::new();
 		let mut rng = Rng::new(seed).fork(0xc16 + i as u64);
@@ -509,7 +509,7 @@ pub fn run_c16(cfg: &Config) -> i32 {
 	});
 	total.merge(rep);
 	// raw float bit patterns
-	let n = cfg.budget(2_000_000, 200_000_000);
+	let n = cfg.budget(8_000_000, 400_000_000);
 	let rep = parallel(cfg.threads, shards, |i| {
 		let mut rep = Report::new();
 		let mut rng = Rng::new(seed).fork(0xf64 + i as u64);
@@ -881,7 +881,7 @@ pub fn run_c17(cfg: &Config) -> i32 {
 	let mut total = Report::new();
 	let seed = cfg.seed;
 	let shards = 64usize;
-	let n = cfg.budget(200_000, 10_000_000);
+	let n = cfg.budget(1_500_000, 30_000_000);
 	let rep = parallel(cfg.threads, shards, |i| {
 		let mut rep = Report::new();
 		let mut rng = Rng::new(seed).fork(0xc17 + i as u64);
@@ -1179,7 +1179,7 @@ pub fn run_c18(cfg: &Config) -> i32 {
 	let mut total = Report::new();
 	let seed = cfg.seed;
 	let shards = 64usize;
-	let n = cfg.budget(200_000, 10_000_000);
+	let n = cfg.budget(1_500_000, 30_000_000);
 	let rep = parallel(cfg.threads, shards, |i| {
 		let mut rep = Report::new();
 		let mut rng = Rng::new(seed).fork(0xc18 + i as u64);
